@@ -67,7 +67,8 @@ class OperatorCheck(Check):
             n += 1
             qspec = ("list", q2 if (scope == "B1" and (self.b1_full_q2 or tier != "quick")) else qs2)
             out.append(opsem.make_task(scopes.SIG2, conds, self.weakly, self.cfgs, qspec, via=via, wsig=WSIG2, cls=cls,
-                                       scope=scope, keys=alt_keys(n, len(conds)) if via == "api" else None))
+                                       scope=scope, keys=alt_keys(n, len(conds)) if via == "api" else None,
+                                       labels=(via == "api" and n % 3 == 1)))
         # bases containing the SAME conditional twice (same formulas, same text, different keys): [c1, c1, c2] for every
         # structure representative [c1, c2] of the literal pairs
         reps2, _st = scopes.structural_scope(scopes.L3, scopes.SIG3, 2, ("strong", "weak-finite", "weak-nofinite"), seed, 1, minsize=2)
@@ -95,7 +96,8 @@ class OperatorCheck(Check):
                 for ch in range(nch):
                     out.append(opsem.make_task(scopes.SIG3, conds, self.weakly, self.cfgs, ("type", tq[0], tq[1], True),
                                                via=via, cls=cls, scope="B3(%d)-%s" % (size, alpha_name), qslice=(ch, nch),
-                                               keys=alt_keys(i, len(conds)) if via == "api" else None))
+                                               keys=alt_keys(i, len(conds)) if via == "api" else None,
+                                               labels=(via == "api" and i % 3 == 2)))
                 if alpha_name == "L3" and i % max(1, len(reps) // max(1, self.sem_all_bases[tier])) == 0 \
                         and self.sem_all_bases[tier] and len(conds) >= 3:
                     for r_ in range(30):
